@@ -221,6 +221,8 @@ pub fn replay(case: &Value) -> Vec<Violation> {
             let Ok(t) = serde_json::from_value::<Transform>(case["transform"].clone()) else { return vec![] };
             transform_case(n, rich, zod, t).0
         }
+        // the whole CLI case again: with the hash seeds owned it is deterministic
+        "cli" => cli_case(n, zod, case["hash_seed"].as_u64().map(|k| k + 1).unwrap_or(16)).0,
         _ => vec![],
     }
 }
@@ -275,15 +277,15 @@ fn transform_case(n: usize, rich: bool, zod: bool, t: Transform) -> (Vec<Violati
 
 /// CLI seam: verbosity and visualisation must not change the binding files; repeated fresh
 /// processes (no schedule control) must agree.
-fn cli_case(n: usize, zod: bool) -> (Vec<Violation>, u64) {
+fn cli_case(n: usize, zod: bool, seeds: u64) -> (Vec<Violation>, u64) {
     let p = base_project(n, true).render();
     let mut vs = vec![];
     let mut runs = 0u64;
-    let gen = |verbose: bool, visualize: bool, schedule: Option<String>| -> Option<BTreeMap<String, String>> {
+    let gen_seeded = |verbose: bool, visualize: bool, schedule: Option<String>, hash_seed: Option<u64>| -> Option<BTreeMap<String, String>> {
         let sb = run::Sandbox::new();
         let cfg = FileCfg { zod, visualize_deps: visualize, ..Default::default() };
         sbx::write_sources(&sb.root, &p, &cfg);
-        let mut opts = RunOpts { schedule_env: schedule, ..Default::default() };
+        let mut opts = RunOpts { schedule_env: schedule, hash_seed, ..Default::default() };
         if verbose {
             opts.extra_args.push("--verbose".into());
         }
@@ -295,6 +297,7 @@ fn cli_case(n: usize, zod: bool) -> (Vec<Violation>, u64) {
         m.remove(".typecache");
         Some(m)
     };
+    let gen = |verbose: bool, visualize: bool, schedule: Option<String>| gen_seeded(verbose, visualize, schedule, None);
     let fields = [("seam", "cli".to_string()), ("files", n.to_string()), ("mode", if zod { "zod".to_string() } else { "none".to_string() })];
     let base = gen(false, false, None);
     runs += 1;
@@ -319,15 +322,23 @@ fn cli_case(n: usize, zod: bool) -> (Vec<Violation>, u64) {
         }
     }
     // fresh processes, including the visualisation files (which iterate hash maps of their own)
+    // one process per hash seed (the preloaded getrandom shim makes every HashMap / HashSet order of
+    // the process a function of the seed, so a failure replays exactly)
     let mut prev: Option<BTreeMap<String, String>> = None;
-    for k in 0..6 {
+    for k in 0..seeds {
         runs += 1;
         // alternate between the identity schedule and the reversed file order
         let sched = if k % 2 == 1 && n >= 2 { Some(format!("S1.files#0={}", run::factorial(n) - 1)) } else { None };
-        if let Some(o) = gen(false, true, sched) {
+        if let Some(o) = gen_seeded(false, true, sched, Some(k)) {
             if let Some(p) = &prev {
                 if *p != o {
-                    vs.push(mk("process-dependent-output", &fields, first_diff(p, &o), json!({"kind":"cli","n_files":n,"zod":zod}), n as u64));
+                    vs.push(mk(
+                        "process-dependent-output",
+                        &fields,
+                        format!("hash seed {} differs from the seeds before it: {}", k, first_diff(p, &o)),
+                        json!({"kind":"cli","n_files":n,"zod":zod,"hash_seed":k}),
+                        n as u64,
+                    ));
                     break;
                 }
             }
@@ -441,7 +452,7 @@ pub fn run(tier: Tier) -> CheckResult {
     }
     // CLI seam
     let ccases: Vec<(usize, bool)> = (1..=3).flat_map(|n| [(n, false), (n, true)]).collect();
-    let cres: Vec<(Vec<Violation>, u64)> = ccases.par_iter().map(|(n, z)| cli_case(*n, *z)).collect();
+    let cres: Vec<(Vec<Violation>, u64)> = ccases.par_iter().map(|(n, z)| cli_case(*n, *z, if tier == Tier::Quick { 16 } else { 64 })).collect();
     let mut cli_runs = 0;
     for (v, e) in cres {
         cli_runs += e;
@@ -478,8 +489,8 @@ pub fn run(tier: Tier) -> CheckResult {
         {"kind":"transform","n_files":3,"zod":false,"transform":"MoveTypes"},
         {"kind":"cli","n_files":2,"zod":true,"flags":"--verbose + visualize_deps"}
     ]));
-    res.coverage.set("rule", format!("projects of 2..{} files (file i: struct T_i depending on T_i+1 through Option and HashMap<String, Vec<..>>, enum K_i, 1-2 commands, a channel, an event); for each project and mode every iteration-order schedule at hook sites S1 (files), S4 (plain struct order), S5/S6 (topological sort): full product for <= 3 files, deviation bound {} beyond; oracle: all files byte-identical to the identity schedule's output modulo the timestamp line; identity schedule run twice (replay divergence). Transformations (comments/whitespace, helper fns, non-serde items: output identical; reorder items, move types between files, merge, split, rename files: identical multiset of parsed top-level declarations per file and, in Zod mode, still declaration-before-use). CLI seam: --verbose and visualize_deps leave the binding files identical (the latter adds exactly its two files); six fresh processes incl. reversed file order agree on every file incl. the dependency graphs.", max_files, if tier == Tier::Quick { 1 } else { 2 }));
-    res.assumptions = vec!["hash iterations not behind a hook site are only covered by re-execution in fresh processes / fresh analyser instances".into()];
+    res.coverage.set("rule", format!("projects of 2..{} files (file i: struct T_i depending on T_i+1 through Option and HashMap<String, Vec<..>>, enum K_i, 1-2 commands, a channel, an event); for each project and mode every iteration-order schedule at hook sites S1 (files), S4 (plain struct order), S5/S6 (topological sort): full product for <= 3 files, deviation bound {} beyond; oracle: all files byte-identical to the identity schedule's output modulo the timestamp line; identity schedule run twice (replay divergence). Transformations (comments/whitespace, helper fns, non-serde items: output identical; reorder items, move types between files, merge, split, rename files: identical multiset of parsed top-level declarations per file and, in Zod mode, still declaration-before-use). CLI seam: --verbose and visualize_deps leave the binding files identical (the latter adds exactly its two files); one process per hash seed 0..16 (quick) / 0..64 (thorough) - the preloaded getrandom shim makes every hash iteration order of the process a function of the seed - incl. reversed file order, must agree on every file incl. the dependency graphs.", max_files, if tier == Tier::Quick { 1 } else { 2 }));
+    res.assumptions = vec!["hash iterations not behind a hook site are covered by the enumerated hash seeds of the process (a seed alphabet, deterministic and replayable, not a complete order product) and by fresh analyser instances in process".into()];
     let _ = gen::PRELUDE;
     res
 }
